@@ -63,6 +63,7 @@ func (e *Engine) verifyFunction(fn *ssa.Function) (rep *FnReport) {
 		fr.opaqueInput(fv, fv.Type(), "fv."+fv.Name())
 	}
 	fr.params = args
+	c.collectWitnesses(fr, st)
 	// reference-typed parameters point to allocated objects (or are nil)
 	al := c.heapGet(st, "alloc", allocSort)
 	for _, a := range args {
